@@ -450,12 +450,29 @@ func treeDiff(a, b []string) string {
 				kx, ky := fx[k], fy[k]
 				if strings.HasPrefix(kx, "type=") && strings.HasPrefix(ky, "type=") {
 					tx, ty := readableType(kx[5:]), readableType(ky[5:])
-					if len(tx) > 150 {
-						tx = tx[:150] + "..."
+					if nx, ny := strings.Count(tx, "{k="), strings.Count(ty, "{k="); nx != ny && nx > 1 && ny > 1 {
+						// unions: say how many member types there are (nested ones included) first
+						tx, ty = fmt.Sprintf("[%d member types] %s", nx-1, tx), fmt.Sprintf("[%d member types] %s", ny-1, ty)
 					}
-					if len(ty) > 150 {
-						ty = ty[:150] + "..."
+					// long dumps: keep the head and the place where the two part ways
+					c := 0
+					for c < len(tx) && c < len(ty) && tx[c] == ty[c] {
+						c++
 					}
+					cut := func(t string) string {
+						if len(t) <= 170 {
+							return t
+						}
+						if c < 120 {
+							return t[:170] + "..."
+						}
+						end := c + 90
+						if end > len(t) {
+							end = len(t)
+						}
+						return t[:50] + "..." + t[c-30:end] + "..."
+					}
+					tx, ty = cut(tx), cut(ty)
 					kx, ky = "type="+tx, "type="+ty
 				}
 				parts = append(parts, "history: "+kx+" | fresh set: "+ky)
@@ -748,16 +765,17 @@ func compare(o Outcome) (violations, disagreements []diff) {
 	}
 	for i, s := range o.Go.Steps {
 		if s.BatchDiff != "" {
+			d := s.BatchDiff
+			if s.TreeDiff != "" {
+				// the same difference, field by field and decoded, first
+				d = s.TreeDiff + " || " + d
+			}
 			violations = append(violations, diff{kind: "spec", goV: map[string]any{"history": s.Dump, "batch_on_fresh_set": s.Batch},
-				what: fmt.Sprintf("op %d (process): the one Modules value and a batch run of the accepted texts on a fresh set differ: %s", i, s.BatchDiff)})
-		}
-		if s.TreeDiff != "" {
+				what: fmt.Sprintf("op %d (process): the one Modules value and a batch run of the accepted texts on a fresh set differ: %s", i, d)})
+		} else if s.TreeDiff != "" {
 			how := "a clean run"
 			if rescorr.HasErrors(s.Dump) {
 				how = "a run that reported errors (the same errors on both sides)"
-				if s.BatchDiff != "" {
-					how = "a run that reported errors"
-				}
 			}
 			violations = append(violations, diff{kind: "spec", goV: s.TreeDiff,
 				what: fmt.Sprintf("op %d (process): after %s the trees ToEntry hands out differ from those of a fresh set that loaded the same accepted texts and ran Process once - the one value remembers an earlier generation: %s", i, how, s.TreeDiff)})
@@ -1038,6 +1056,18 @@ func main() {
 		}
 		hs = append(hs, h)
 	}
+	// histories with reads of freshly loaded modules between a load and the next Process
+	nBetween := 500
+	if f.Thorough() {
+		nBetween = 15000
+	}
+	for i := 0; i < nBetween; i++ {
+		h := genReadBetweenHistory(f.Rand(4000000+i), maxLen)
+		if i%4 == 3 {
+			h.Mode = "stmts"
+		}
+		hs = append(hs, h)
+	}
 	if only := os.Getenv("CORR_C18_ONLY"); only != "" {
 		// diagnosis only (not used by ./check): run the histories whose origin starts with this
 		var sel []History
@@ -1207,7 +1237,7 @@ func main() {
 	if maxLen >= 12 {
 		maxMods = 3
 	}
-	res.Rule = fmt.Sprintf("histories of load(good text) | load(bad text) | process | read | walk of length <= %d on one Modules value: %d corpus histories (the D30-D32, D44-D46, D55 witnesses, the histories of the Lean non-vacuity examples, imports / submodules arriving after a first Process, unions over typedefs of a library whose newer revision arrives late, extension-bearing built-in types whose extension module arrives after a Process / read), each in raw-text and in statement-tree mode, then seeded histories over the texts of a generated module set (harness/gen: 1-%d modules with submodules, groupings, typedefs, identities, augments, deviations) in as-generated / submodules-first / reversed / shuffled arrival order, 40%% with another (later or earlier) revision of one module whose body differs, one load in seven offers two pending texts as one (several top-level statements, registered all or nothing), with process, read (Find), walk (ToEntry + GetErrors + a visit of every node of everything) and bad texts interleaved; every tenth history is about namespaces: after a Process, walk or read of a generated set a differently named module arrives that claims a namespace already in use, and / or a newer revision of a module with a changed namespace (a fresh one or another module's), and / or a module that takes over the namespace such a revision gave up; every fifth history is built around a submodule revision that is superseded after a Process: module m includes s, the first revision of s has an include (submodule t) and / or an import (module lib) of its own and uses what they bring (grouping, typedef, identity base, identityref), a newer (one time in five: older) revision of s without those statements arrives after a Process, sometimes a third one after another, so that nothing reaches the old revision - and sometimes t - any more; in the general histories one revision variant in three is of a submodule; every fifth history is built around types that name a built-in and still depend on the module set: a generated module gets unions (nested, inside typedefs at module and container level, in leaf-lists) whose members are typedefs of an imported type library beside decimal64 / enumeration / bits / leafref members with restrictions of their own, and built-in types (string, int8, enumeration, decimal64, bits, leafref, boolean, union and its members) that carry an extension statement of an imported module; the library arrives early in one revision and after a Process in another that redefines the typedefs (other base kind, range, enum / bit set, fraction digits, union members), the extension module arrives only after a first Process, walk or read; bad texts = the good text of a pending or loaded module with a nested scope holding an unresolvable typedef (60%%) and ONE late fault (unknown substatement deep inside the last statement, missing type at the end, syntax error at the end, a non-module node after the module, a second module in the text that is a duplicate, the text twice; a text of 2-3 top-level statements that starts with a NEWER REVISION of a loaded module - sometimes with a moved namespace, sometimes behind a brand-new module - and ends with a statement add refuses: a duplicate, a non-module node, a module name with an @) or an exact duplicate (same or other file name); on top of these %d histories built around a REFUSED TEXT OF SEVERAL STATEMENTS after a processing run: a generated set (submodules, augments, deviations, choices, uses - the processed trees differ from a raw conversion; one time in three one text is held back) is loaded and processed, then once or twice a text of 2-4 top-level statements whose earlier statements add accepts (a brand-new module with / without revision or augmenting a loaded module, a newer revision of a loaded module or submodule that takes the bare name over - sometimes with a moved namespace or a dropped node -, an older revision, a brand-new submodule of a loaded module, the held-back text) and whose LAST statement add refuses (a duplicate of a loaded text, the first statement of the text again, the same name and revision with another body, a container / grouping / typedef / leaf, a module or submodule name with an @), directly followed by 1-2 reads (Find from ms.Modules[name] of modules the text mentioned and of modules it did not), sometimes a walk, sometimes the held-back text arriving on its own with a read before the next Process, then a final Process; half of them put the read battery to the one value and its shadow after every operation; distinct_nontrivial = distinct histories (by operations and texts) with a process that follows an accepted load and an earlier process or rejected load, i.e. where incrementality or failed-load transparency is actually exercised", maxLen, nCorpus, maxMods, nRefused)
+	res.Rule = fmt.Sprintf("histories of load(good text) | load(bad text) | process | read | walk of length <= %d on one Modules value: %d corpus histories (the D30-D32, D44-D46, D55 witnesses, the histories of the Lean non-vacuity examples, imports / submodules arriving after a first Process, unions over typedefs of a library whose newer revision arrives late, extension-bearing built-in types whose extension module arrives after a Process / read), each in raw-text and in statement-tree mode, then seeded histories over the texts of a generated module set (harness/gen: 1-%d modules with submodules, groupings, typedefs, identities, augments, deviations) in as-generated / submodules-first / reversed / shuffled arrival order, 40%% with another (later or earlier) revision of one module whose body differs, one load in seven offers two pending texts as one (several top-level statements, registered all or nothing), with process, read (Find), walk (ToEntry + GetErrors + a visit of every node of everything) and bad texts interleaved; every tenth history is about namespaces: after a Process, walk or read of a generated set a differently named module arrives that claims a namespace already in use, and / or a newer revision of a module with a changed namespace (a fresh one or another module's), and / or a module that takes over the namespace such a revision gave up; every fifth history is built around a submodule revision that is superseded after a Process: module m includes s, the first revision of s has an include (submodule t) and / or an import (module lib) of its own and uses what they bring (grouping, typedef, identity base, identityref), a newer (one time in five: older) revision of s without those statements arrives after a Process, sometimes a third one after another, so that nothing reaches the old revision - and sometimes t - any more; in the general histories one revision variant in three is of a submodule; every fifth history is built around types that name a built-in and still depend on the module set: a generated module gets unions (nested, inside typedefs at module and container level, in leaf-lists) whose members are typedefs of an imported type library beside decimal64 / enumeration / bits / leafref members with restrictions of their own, and built-in types (string, int8, enumeration, decimal64, bits, leafref, boolean, union and its members) that carry an extension statement of an imported module; the library arrives early in one revision and after a Process in another that redefines the typedefs (other base kind, range, enum / bit set, fraction digits, union members), the extension module arrives only after a first Process, walk or read; bad texts = the good text of a pending or loaded module with a nested scope holding an unresolvable typedef (60%%) and ONE late fault (unknown substatement deep inside the last statement, missing type at the end, syntax error at the end, a non-module node after the module, a second module in the text that is a duplicate, the text twice; a text of 2-3 top-level statements that starts with a NEWER REVISION of a loaded module - sometimes with a moved namespace, sometimes behind a brand-new module - and ends with a statement add refuses: a duplicate, a non-module node, a module name with an @) or an exact duplicate (same or other file name); on top of these %d histories built around a REFUSED TEXT OF SEVERAL STATEMENTS after a processing run: a generated set (submodules, augments, deviations, choices, uses - the processed trees differ from a raw conversion; one time in three one text is held back) is loaded and processed, then once or twice a text of 2-4 top-level statements whose earlier statements add accepts (a brand-new module with / without revision or augmenting a loaded module, a newer revision of a loaded module or submodule that takes the bare name over - sometimes with a moved namespace or a dropped node -, an older revision, a brand-new submodule of a loaded module, the held-back text) and whose LAST statement add refuses (a duplicate of a loaded text, the first statement of the text again, the same name and revision with another body, a container / grouping / typedef / leaf, a module or submodule name with an @), directly followed by 1-2 reads (Find from ms.Modules[name] of modules the text mentioned and of modules it did not), sometimes a walk, sometimes the held-back text arriving on its own with a read before the next Process, then a final Process; half of them put the read battery to the one value and its shadow after every operation; on top of these %d histories built around a DROPPED DEFINITION: a library module dl (one time in four with its definitions in a submodule) is loaded in a first revision with typedefs (t, a chain t2 -> t, a union over t), a grouping, identities and a data tree, a user module (hand-made or a generated one) uses them in leaves, unions (nested, in typedefs, in leaf-lists), local typedef chains, defaults, list keys, rpc input, choices, uses (also through a grouping of its own), identities / identityrefs, augments and deviations (deviate replace type, replace default, add, not-supported) of the library's nodes; after a clean Process a NEWER revision arrives that drops 1-3 of those definitions or nodes (repairing its own uses of them or, one time in three, left broken itself), so that the next Process fails at the typedef / identity stage, the conversion stage, the augment stage or the deviation stage; one time in three a third revision restores everything (clean again), one time in six the late revision is an OLDER one (control); and %d histories built around a READ OF A FRESHLY LOADED MODULE BETWEEN A LOAD AND THE NEXT PROCESS: module a reaches typedefs, a grouping and identities through a submodule (one time in three through two includes; one time in four it holds them itself), module u uses them through its import, everything is processed, then a newer revision of the submodule (or of a) with another base type / other grouping leaves / other derivations and a NEW module c using the same definitions arrive in either order, with a read of c (Find from ms.Modules[c], or a walk) after both, between them or before the revision, sometimes a read of the old module too, then Process (sometimes twice, sometimes another new module with a read of its own and a third Process); distinct_nontrivial = distinct histories (by operations and texts) with a process that follows an accepted load and an earlier process or rejected load, i.e. where incrementality or failed-load transparency is actually exercised", maxLen, nCorpus, maxMods, nRefused, nDropped, nBetween)
 	res.Distribution["histories_corpus"] = int64(2 * nCorpus)
 	res.Distribution["histories_with_loads_as_raw_text"] = modes["text"]
 	res.Distribution["histories_with_loads_as_statement_trees"] = modes["stmts"]
@@ -1238,6 +1268,7 @@ func main() {
 		"after EVERY operation (also right after an accepted or refused load, before the next Process) the lookups that need no processed trees - FindModuleByNamespace for every namespace in play and an unknown one, FindModule for every module / submodule name and name@revision and an unknown name - are put to the one value and to a SHADOW value that runs the same history (same Process, read and walk operations) without the loads the one value refused, and compared with the source position of what is returned (Go vs Go): a refused text leaves no trace for every later load, processing run and query; right after every REFUSED load (and after every walk; in the reads-everywhere histories after every operation) the whole READ BATTERY is put to both values and compared: the trees ToEntry answers with for every module and submodule (also the ones the refused text never mentioned) node by node, all fields incl. the resolved types, the errors recorded on them (GetErrors), the identity values reachable from the types of the nodes, the value list of every identity statement, Entry.Find from every module root to up to 12 nodes of its tree and across every import - a reader that comes before the next Process sees the processed trees (submodule nodes, augments, implied cases, deviations), not a raw conversion; a read op after a refused load is also answered by the session model from the finished Process (the registry is unchanged) and compared",
 		"after every Process the same queries are put to the one value and to the batch value and compared (Go vs Go; the session model has no such operations): FindModuleByNamespace for every namespace in play and an unknown one, FindModule for every module / submodule name and name@revision and an unknown name, Entry.Find from every module root to up to 12 nodes of its tree and across every import, GetModule of the first module (every third operation; it processes once more); Entry.Namespace and Entry.InstantiatingModule of every node are part of the dump (ns=, im=); the walk operation asks the namespace and name questions between loads as a perturbation",
 		"every process op is checked twice: Go (one value) vs Go (batch of the accepted texts on a fresh value) on an extended dump (all node fields, submodule trees, identity value lists with source positions), and Go vs the Lean session model on the projection "+strings.Join(keys, ",")+" + errors",
+		"after EVERY process op, clean or not (also after the second run that GetModule makes), the trees the value hands out right then are compared with those of the fresh twin that loaded the same accepted texts and ran Process once (Go vs Go, no model needed): ToEntry of every module and submodule node by node with all fields (the resolved type with its union members, defaults, units, list attributes, namespace, instantiating module), the errors recorded on the trees, the identity values reachable from the types of the nodes, the value list of every identity statement, the resolved type of every top-level typedef statement - when Process reported errors both sides report the same errors and the trees handed out afterwards must be equal as well: a run that FAILS to resolve something must not hand out what an earlier generation resolved (a leaf that keeps the type of a typedef the newer revision dropped, a union that keeps a stale member); the shadow value is read in the same way, so that the reads perturb both alike",
 		"3 of 4 generated histories (and every corpus history) send the raw texts: generic parser, AST builder and registry of the model decide whether a text is accepted, and the answer to every load is compared with goyang's (syntax / build / add); 1 of 4 (and every corpus history a second time) send the statement trees of the real generic parser with goyang's verdict on parser and builder as a flag, duplicates and non-module nodes are then still decided by the model and compared",
 		"when Process reports a missing module or submodule, errors of the classes identity-*, unknown-prefix and cycle (identity) are not compared between goyang and the model (the identity layer of the model declines after a link failure); the comparison of the one value with the batch run on a fresh value is on all errors")
 	res.Write(f.Out)
